@@ -143,6 +143,49 @@ def run(tier, seed, replay=None):
                 approved.append((pos, text))
             if idx % 37 == 0:
                 out.sample({"position": pos, "program": text, "verdict": impl})
+        # ---- raw-string scanner: model scan_raw vs what _analyze_string_cmdsubs extracts, on strings over
+        # the characters that matter to delimiting; the approved ones also go to the ground-truth run
+        RAW_TOKENS = ["$(", ")", "(", "`", "#", ";", " ", "\n", "'", '"', "\\", "ls", "whoami", "rm x", "zap", "a", "$", "{", "}", "&", "|", "<(", "$((", "))"]
+        n_raw = 1500 if tier == "quick" else 40000
+        real_analyze = an.analyze
+        seen_inner = []
+
+        def fake_analyze(cmd, config, cwd_, *, remote=False):
+            seen_inner.append(cmd)
+            return an.Decision("allow", "recorded")
+
+        def impl_scan(text):
+            del seen_inner[:]
+            an.analyze = fake_analyze
+            try:
+                ds = an._analyze_string_cmdsubs(text, cfg, Path(cwd))
+            finally:
+                an.analyze = real_analyze
+            if not ds:
+                return ["none"]
+            if len(ds) == 1 and ds[0].action == "ask" and ds[0].reason == "complex substitution" and not seen_inner:
+                return ["complex"]
+            return ["subs", list(seen_inner)]
+
+        raws = ["$(ls)", "`ls`", "$(echo a;#)\nrm x #$(echo b\n)", "$(ls) # c", "a # $(rm x)", "$(ls #)\nrm x\n)", "${x#y} $(ls)", "$# $(ls)",
+                "$(ls)#", "#$(ls)", "$(a;#b)", "$(a #b)", "$(a\n#b\n)", "`a #b`", "$(ls) ' $(rm x) '", "\\$(rm x)", "$(echo \\) ; rm x)"]
+        for _ in range(n_raw):
+            raws.append("".join(rng.choice(RAW_TOKENS) for _ in range(rng.randint(1, 9))))
+        for raw in raws:
+            iv = impl_scan(raw)
+            mv = model.call(["scan_raw", raw])
+            out.case(["raw", raw])
+            out.count("raw_scan", iv[0])
+            if mv != iv:
+                out.disagreements.append({"correspondence": "RawScan.scan_raw <-> analyzer._analyze_string_cmdsubs", "raw": raw, "model": mv, "impl": iv})
+            for tmpl in ("cat <<EOF\n{R}\nEOF", "echo ${v:-{R}}"):
+                text = tmpl.replace("{R}", raw)
+                try:
+                    if lib.with_timeout(lambda: an.analyze(text, cfg, Path(cwd)).action, 3.0) == "allow":
+                        approved.append(("raw-string", text))
+                        out.count("raw_scan", "approved-program")
+                except (lib.Timeout, RecursionError):
+                    pass
         model.close()
 
         # ground truth for every approved program, both branch polarities
